@@ -64,6 +64,18 @@ def enum_cases(draw):
     place at which the budget can run out (inside the initial set, a geometry step, the evaluation of a trial point that is about
     to be rejected, a soft or hard restart) is visited, exhaustively inside the scenario."""
     c = draw(sc.scenarios(ENUM_PROF))
+    if not c.get("proj") and c["n"] >= 2 and draw(st.integers(0, 3)) == 0:
+        # several user sets + soft restarts (+ optionally a loose projection routine): the route on which a trust-region step that
+        # increases the model only warns, evaluates the trial point and then restarts or stops
+        draw(sc.attach_projections(c))
+        if len(c["proj"]) < 2:
+            c["proj"] = c["proj"] + draw(sc.draw_sets(c["n"], [float(v) for v in np.array(c["x0"])], 1.0, nmin=1, nmax=1)) if c["tags"].count("proj-x0:z") else c["proj"]
+        c["up"]["restarts.use_restarts"] = True
+        c["up"].pop("restarts.use_soft_restarts", None)
+        if draw(st.booleans()):
+            c["up"]["dykstra.max_iters"] = draw(st.sampled_from([1, 2, 5]))
+        c["maxfun"] = draw(st.sampled_from([14, 20]))
+        c["tags"] = sorted(set(c["tags"] + ["proj-soft-restarts"]))
     if c.get("proj"):
         c["maxfun"] = min(c["maxfun"], 14)      # projection runs cost 0.1-1 s each (PGD over Dykstra)
     c["enum_budgets"] = True
